@@ -293,6 +293,12 @@ def decide(prop_id: str, tier: str, seed: int) -> int:
                                                                                   f"{c.evaluations} cases had been evaluated"}],
                                          "correspondence_disagreements": [d.to_json() for d in c.disagreements[:20]]})
             out_lines.append(f"VIOLATION property={prop_id} replay={rp_} no-failing-input-found")
+        try:
+            import faulthandler
+            log(f"{phase} cut after {run_limit:.0f} s; where the check was:")
+            faulthandler.dump_traceback(file=sys.stderr)
+        except Exception:
+            pass
         for ln in out_lines:
             print(ln, flush=True)
         print(f"[{prop_id}] tier={tier} seed={seed} {phase} cut after {run_limit:.0f} s -> exit 1", flush=True)
